@@ -4,6 +4,7 @@
 #include <errno.h>
 #include <sys/types.h>
 #include <arpa/inet.h>
+#include "net/socket_address.c"	/* utils.c calls into it (sa_copy, sa_addr_from_str) */
 #include "net/utils.c"
 
 struct in_s { uint32_t w[4]; uint32_t a[4]; uint16_t len; };
